@@ -1,4 +1,4 @@
-//! c18bare <rounds> <threads> <depth> <seed> [history_turns] [tail_len] [light] [force_repetition_root]
+//! c18bare <rounds> <threads> <depth> <seed> [history_turns] [tail_len] [light] [force_repetition_root] [cold_start]
 //! exit 0 = every thread's results equalled the sequential oracle; 1 = mismatch.
 use c18bare::*;
 
@@ -18,6 +18,15 @@ fn main() {
     }
     let mut bad = 0;
     let mut nodes = 0;
+    if arg(9, 0) == 1 {
+        // cold start must come before any other engine call of this process
+        let (b, n) = cold_start(threads, seed, turns, depth);
+        nodes += n;
+        if b > 0 {
+            bad += 1;
+            println!("MISMATCH cold_start: {} of {} threads disagree with the single-threaded recomputation", b, threads);
+        }
+    }
     for r in 0..rounds {
         let force_rep = arg(8, 0) == 1;
         let root = if r % 3 == 2 || force_rep { build_repetition_root(seed.wrapping_add(r)) } else { build_root(seed.wrapping_add(r), turns, r % 2 == 1) };
